@@ -153,6 +153,15 @@ func decryptSymmetricAESCBC(ciphertext []byte, algorithm string, key []byte, iv 
 	if (len(ciphertext) % aes.BlockSize) != 0 {
 		return nil, ErrInvalidCiphertextLength
 	}
+	switch algorithm {
+	case Algorithm_A128CBC_NOPAD, Algorithm_A192CBC_NOPAD, Algorithm_A256CBC_NOPAD:
+		// nop
+	default:
+		// With PKCS#7 padding the ciphertext is never empty
+		if len(ciphertext) == 0 {
+			return nil, ErrInvalidCiphertextLength
+		}
+	}
 
 	block, err := aes.NewCipher(key)
 	if err != nil {
